@@ -348,6 +348,70 @@ Definition step (c : cfg) (s : st) (o : op) (orc : list N) : st * list out :=
       if s_present s then (with_infl s (filter (fun kv => negb (expired c now (snd kv))) (s_infl s)), []) else (s, [])
   end.
 
+(* ---------- the same packet handlers when every write to the client's connection FAILS ----------
+   (fault injection: broken pipe at the moment the broker answers).  A handler that returns the write error
+   (the acknowledgement writes of processPublish / processPubrec / processPubrel, PINGRESP, SUBACK) is aborted
+   there: what it did before the write stays, what comes after does not happen, processPacket skips the
+   post-packet block, the read loop ends and the connection is torn down.  Writes whose error is ignored
+   (DisconnectClient, the post-packet block) just write nothing.  No theorem speaks about these variants; they
+   are tied to the code by the same differential replay. *)
+Definition deferred_fail (s : st) (orc : list N) : st :=
+  let '(s', _) := deferred (with_conn s false) orc in with_conn s' (s_conn s).
+
+Definition in_publish_fail (c : cfg) (s : st) (qos pid : N) (uid : N) (now : Z) (orc : list N) : st * list out :=
+  if (s_recvq s =? 0)%Z then (teardown s, [])
+  else
+    let retrans := match get pid (s_infl s) with Some r => r_ty r =? T_PUBREC | None => false end in
+    if retrans then (teardown s, [])
+    else
+      let s1 := with_infl s (del pid (s_infl s)) in
+      if qos =? 0 then (deferred_fail s1 orc, [OFwd uid])
+      else
+        let s2 := with_recvq s1 (dec (s_recvq s1)) in
+        let aty := if qos =? 2 then T_PUBREC else T_PUBACK in
+        let s3 := with_infl s2 (set pid (ack_rec aty uid c now) (s_infl s2)) in
+        (teardown s3, []).                    (* recorded and never forwarded *)
+
+Definition in_ack_fail (c : cfg) (s : st) (ty pid rc : N) (now : Z) (orc : list N) : st * list out :=
+  if ty =? T_PUBACK then
+    match get pid (s_infl s) with
+    | None => (deferred_fail s orc, [])
+    | Some _ =>
+        let s1 := with_infl s (del pid (s_infl s)) in
+        (deferred_fail (with_sendq s1 (inc (s_sendq s1) (s_maxsend s1))) orc, [])
+    end
+  else if ty =? T_PUBREC then
+    match get pid (s_infl s) with
+    | None => (teardown s, [])
+    | Some r =>
+        if (128 <=? rc) || negb (pubrec_rc_valid rc) then (deferred_fail (with_infl s (del pid (s_infl s))) orc, [])
+        else
+          let s1 := with_recvq s (dec (s_recvq s)) in
+          (teardown (with_infl s1 (set pid (ack_rec T_PUBREL (r_uid r) c now) (s_infl s1))), [])
+    end
+  else if ty =? T_PUBREL then
+    match get pid (s_infl s) with
+    | None => (teardown s, [])
+    | Some r =>
+        if (128 <=? rc) || negb (pubrel_rc_valid rc) then (deferred_fail (with_infl s (del pid (s_infl s))) orc, [])
+        else (teardown (with_infl s (set pid (ack_rec T_PUBCOMP (r_uid r) c now) (s_infl s))), [])
+    end
+  else if ty =? T_PUBCOMP then
+    let s1 := with_recvq s (inc (s_recvq s) (s_maxrecv s)) in
+    let s2 := with_sendq s1 (inc (s_sendq s1) (s_maxsend s1)) in
+    (deferred_fail (with_infl s2 (del pid (s_infl s2))) orc, [])
+  else (s, []).
+
+Definition step_fault (c : cfg) (s : st) (o : op) (orc : list N) : st * list out :=
+  match o with
+  | InPublish qos pid _ uid now =>
+      if s_present s && s_conn s then in_publish_fail c s qos pid uid now orc else (s, [])
+  | InAck ty pid rc now =>
+      if s_present s && s_conn s then in_ack_fail c s ty pid rc now orc else (s, [])
+  | InOther => if s_present s && s_conn s then (teardown s, []) else (s, [])    (* PINGRESP / SUBACK not written *)
+  | _ => step c s o orc
+  end.
+
 (* a history: operations with the oracle of each step *)
 Fixpoint run (c : cfg) (s : st) (h : list (op * list N)) : st * list (list out) :=
   match h with
